@@ -114,3 +114,89 @@ Theorem TIE_cprint_stmt_derives_gen :
     cstmt_of s = Some cs /\ DerivesStmt ts cs.
 Proof. exact tie_cprint_stmt_derives. Qed.
 Print Assumptions TIE_cprint_stmt_derives_gen.
+
+(* ------------------------------------------------------------------------------------------ *)
+(** * Round 2: statement structure (blocks, if / else-if / else, while), function definitions, modules
+
+    [sst] / [flats] / [sparse] / [skel] / [cprint_stmts] / [cprint_function] / [cprint_module]:
+    model/CStruct.v; [slex]: the lexer for statement text (// comments, newlines and indentation are
+    white space; braces and if / else / while are tokens).  Proofs: proofs/GenCStruct_equiv.v,
+    proofs/GenCStruct_fun.v. *)
+
+From TV Require Import spec.PyLib model.CStruct proofs.GenCStruct_equiv proofs.GenCStruct_fun.
+
+(** the structure parser reads back exactly what a well-formed skeleton prints: no dangling else
+    (every [if] body is braced), [else if] chains, [else { }], empty blocks, nested loops *)
+Theorem TIE_cstruct_roundtrip :
+  forall l, wfs l = true -> sparse (flats l) = Some l.
+Proof. exact sparse_flats. Qed.
+Print Assumptions TIE_cstruct_roundtrip.
+
+(** the dangling-else shape: an [if] without else inside the then-branch of an [if] with else *)
+Example TIE_cstruct_dangling_else :
+  let x := Var "x" in let y := Var "y" in
+  let s := Branch (LessThan x y)
+             (Block [Branch (Equal x y) (Block [Assignment x y] None) (Block [] None)] None)
+             (Block [Assignment y x] None) in
+  match cprint_stmts s with
+  | Some ts =>
+      match sparse ts, skel s with
+      | Some (SCons (SIfS _ (SCons (SIfS _ _ ENone) SNil) (EBlock (SCons (SSimple _) SNil))) SNil), Some l =>
+          wfs l
+      | _, _ => false
+      end
+  | None => false
+  end = true.
+Proof. vm_compute. reflexivity. Qed.
+
+(** what the printer flattens: a Block inside a Block and comments leave no trace; an else that IS a
+    Branch prints [else if], an else that is a Block holding a Branch prints [else { if .. }] *)
+Example TIE_cstruct_flattening :
+  let x := Var "x" in let a := Assignment x (IntegerLiteral 0) in
+  let br := Branch (Equal x x) (Block [a] None) (Block [] None) in
+  skel (Block [Block [a] (Some "c"); Block [Block [] None] None] None) = skel (Block [a] None) /\
+  (exists c t e, skel (Branch (Equal x x) a br) = Some (SCons (SIfS c t (EIf e)) SNil)) /\
+  (exists c t e, skel (Branch (Equal x x) a (Block [br] None)) = Some (SCons (SIfS c t (EBlock e)) SNil)).
+Proof. vm_compute. repeat split; repeat eexists. Qed.
+
+(** EVERY statement tree: the lines printed by the regenerated [ir_to_c_statement], joined by
+    newlines, lex to the tokens of the skeleton [skel s], and the structure parser reads that
+    skeleton back *)
+Theorem TIE_cstruct_stmt_equiv :
+  forall fdec str_float, float_oracle_ok fdec str_float ->
+  forall s lines, deep_names_ok s = true -> ir_to_c_statement str_float s = Some lines ->
+  exists l, skel s = Some l /\
+            slex fdec (py_join (String nl "") lines) = Some (flats l) /\
+            sparse (flats l) = Some l.
+Proof. exact gen_struct_equiv. Qed.
+Print Assumptions TIE_cstruct_stmt_equiv.
+
+(** a Python exception exactly where the model has none *)
+Theorem TIE_cstruct_stmt_none :
+  forall fdec str_float, float_oracle_ok fdec str_float ->
+  forall s, deep_names_ok s = true -> ir_to_c_statement str_float s = None -> skel s = None.
+Proof. exact gen_struct_none. Qed.
+Print Assumptions TIE_cstruct_stmt_none.
+
+Theorem TIE_cstruct_parse_back :
+  forall s ts, deep_names_ok s = true -> cprint_stmts s = Some ts -> sparse ts = skel s.
+Proof. exact sparse_cprint_stmts. Qed.
+Print Assumptions TIE_cstruct_parse_back.
+
+(** function definitions: return type, name, parameter declarations through [type_to_c]
+    (restrict pointers), body *)
+Theorem TIE_cstruct_function_equiv :
+  forall fdec str_float, float_oracle_ok fdec str_float ->
+  forall f text, function_names_ok f = true ->
+  ir_to_c_function_definition str_float f = Some text ->
+  exists ts, cprint_function f = Some ts /\ slex fdec text = Some ts.
+Proof. exact gen_function_equiv. Qed.
+Print Assumptions TIE_cstruct_function_equiv.
+
+Theorem TIE_cstruct_module_equiv :
+  forall fdec str_float, float_oracle_ok fdec str_float ->
+  forall m text, module_names_ok m = true ->
+  ir_to_c str_float m = Some text ->
+  exists ts, cprint_module m = Some ts /\ slex fdec text = Some ts.
+Proof. exact gen_module_equiv. Qed.
+Print Assumptions TIE_cstruct_module_equiv.
